@@ -75,6 +75,7 @@ static std::string check(const vec3& p, const vec3& a, const vec3& b, const vec3
     const double tol = 1e-9 * (scale2 + exact);
     if (std::fabs(dq - exact) > tol) { snprintf(buf, sizeof buf, "designated-point-is-not-the-closest-point: |bary point - p|^2=%.12g exact minimum=%.12g", dq, exact); return buf; }
     if (std::fabs(sq - exact) > tol) { snprintf(buf, sizeof buf, "returned-squared-distance-wrong: returned %.12g exact %.12g", sq, exact); return buf; }
+    if (sq < 0) { snprintf(buf, sizeof buf, "returned-squared-distance-wrong: returned %.12g is negative (exact %.12g)", sq, exact); return buf; }
     if (q_expected) { long double ex = (qx + a.dx()) - q_expected[0], ey = (qy + a.dy()) - q_expected[1], ez = (qz + a.dz()) - q_expected[2]; double e = (double)sqrtl(ex * ex + ey * ey + ez * ez);
         if (e > q_tol) { snprintf(buf, sizeof buf, "designated-point-is-not-the-closest-point: it lies %.3g away from the unique closest point (tolerance %.3g), barycentric coordinates (%.17g,%.17g,%.17g)", e, q_tol, u, v, w); return buf; } }
     return "";
@@ -97,7 +98,7 @@ static void explore(Result& R) {
         motions.push_back({sc::matmul(sc::rot_x_51213(), sc::rot_z_345()), trans[ti], false, "rot_x_51213*rot_z_345+t" + std::to_string(ti)});
     }
     // scaled copies (the property holds for every triangle: the scaled lattice is as good a family as the lattice, and its dot products are not small dyadic numbers)
-    { std::vector<std::pair<double, int>> sc_menu = {{0.3, 0}, {1.7, 1}, {1.1e-6, 0} /* micrometre meshes in metres: products of four lengths are 1e-24 */}; if (th) { sc_menu.push_back({733.1, 2}); sc_menu.push_back({1.0 / 3.0, 1}); sc_menu.push_back({2.3e-9, 0}); }
+    { std::vector<std::pair<double, int>> sc_menu = {{0.3, 0}, {1.7, 1}, {1.1e-6, 0} /* micrometre meshes in metres: products of four lengths are 1e-24 */, {1.1e-3, 1} /* a millimetre mesh a kilometre from the origin: differences of coordinates are 1e-6 of the coordinates */}; if (th) { sc_menu.push_back({733.1, 2}); sc_menu.push_back({1.0 / 3.0, 1}); sc_menu.push_back({2.3e-9, 0}); }
       for (auto& sm : sc_menu) { Motion a{rots[0], trans[sm.second], false, "scale" + std::to_string(sm.first) + "+t" + std::to_string(sm.second)}; a.s = sm.first; motions.push_back(a); Motion b{sc::rot_z_345(), trans[sm.second], false, "scale" + std::to_string(sm.first) + "*rot_z_345+t" + std::to_string(sm.second)}; b.s = sm.first; motions.push_back(b); } }
     // vertex orders
     std::vector<std::array<int, 3>> orders = {{0, 1, 2}};
@@ -130,6 +131,13 @@ static void explore(Result& R) {
                     R.violation(key, err + " [motion " + m.name + "]", "p=" + v3hex(p) + "\na=" + v3hex(a) + "\nb=" + v3hex(b) + "\nc=" + v3hex(c) + "\nexact=" + dhex(exact * m.s * m.s) + "\nscale2=" + dhex(4.0 * m.s * m.s) + "\nq=" + v3hex(vec3((double)qm[0], (double)qm[1], (double)qm[2])) + "\nqtol=" + dhex(2e-11 * m.s + 64 * 2.3e-16 * tmax + 4 * 2.3e-16 * (tmax + 4 * m.s)) + "\n");
                 }
             }
+            // a point that projects strictly inside the triangle and lies in its plane, lifted by a tiny height h along the normal: the squared distance is h^2 (a formula that subtracts
+            // two numbers of the size of the triangle cannot deliver it)
+            if (f.n == 0 && feat == 64 && !onb) for (double h : {1e-6, 1e-9}) for (const Motion& m : motions) { if (!m.exact || m.s != 1) continue; const double nl = std::sqrt((double)n.x * n.x + (double)n.y * n.y + (double)n.z * n.z);
+                vec3 a = apply(m, A.x / 2.0, A.y / 2.0, A.z / 2.0), b = apply(m, B.x / 2.0, B.y / 2.0, B.z / 2.0), c = apply(m, C.x / 2.0, C.y / 2.0, C.z / 2.0), p0 = apply(m, P.x / 2.0, P.y / 2.0, P.z / 2.0);
+                vec3 nn = (b - a).cross(c - a); nn = nn / nn.norm(); vec3 p = p0 + nn * h; (void)nl; auto [sq, bary] = contact_model_abstract::compute_node_triangle_distance(p, a, b, c); evals++; R["evaluations_of_points_lifted_off_the_plane"]++;
+                const double tmax = std::max({std::fabs(m.t[0]), std::fabs(m.t[1]), std::fabs(m.t[2])}); const double want = h * h, tol2 = 1e-5 * want + 2 * h * 8 * 2.3e-16 * (tmax + 4);   /* the lifted point itself is rounded to the grid of its coordinates */
+                if (!(sq >= 0) || std::fabs(sq - want) > tol2) { char b2[300]; snprintf(b2, sizeof b2, "returned-squared-distance-wrong: point %.3g above the interior of the triangle, returned %.12g expected %.12g", h, sq, want); R.violation(std::string("returned-squared-distance-wrong|just-above-the-plane|") + (tmax == 0 ? "at-origin" : "translated"), std::string(b2) + " [motion " + m.name + "]", "p=" + v3hex(p) + "\na=" + v3hex(a) + "\nb=" + v3hex(b) + "\nc=" + v3hex(c) + "\nexact=" + dhex(want) + "\nscale2=" + dhex(want * 1e-5 / 1e-9) + "\n"); } }
             if (configs % 500000 == 1) R.sample("{\"triangle_x2\":[[" + std::to_string(A.x) + "," + std::to_string(A.y) + "," + std::to_string(A.z) + "],[" + std::to_string(B.x) + "," + std::to_string(B.y) + "," + std::to_string(B.z) + "],[" + std::to_string(C.x) + "," + std::to_string(C.y) + "," + std::to_string(C.z) + "]],\"point_x2\":[" + std::to_string(P.x) + "," + std::to_string(P.y) + "," + std::to_string(P.z) + "],\"exact_d2\":" + jnum(exact) + ",\"region\":\"" + region_name(feat) + "\"}");
         }
     }
